@@ -82,6 +82,9 @@ class ScriptedBase:
 
     def solve_t_before(self, t, **kw):
         self.__dict__['_sc_log'].append(('pre', self._pos(t), kw.get('iteration')))
+        if 'marker' in kw:
+            # a keyword of the caller's own, passed through every solve method to the hooks (what **kwargs is for)
+            self.__dict__['_sc_log'].append(('marker', self._pos(t), kw['marker']))
         if self.__dict__.get('_sc_hooks_write') == 'check':
             self._A[t] += 1000.0  # a pre-solution calculation that moves a CHECK variable (finite): pass 1 is judged against the state on entry
         elif self.__dict__.get('_sc_hooks_write'):
